@@ -21,7 +21,7 @@ use crate::{
 pub const DEF: PropDef = PropDef {
     id: "C14",
     groups,
-    rule: "generated entry trees with ignore set directly, inherited from a group, overridden to false inside an ignored group and nested twice x filter sets (as C13) x {no flag, --ignored, --include-ignored}; actions --list, --list --format terse (NEXTEST=1) and Divan::list_benches(), in-process and through real command lines in a child process; round trip: up to 3 listed paths are fed back as the only --exact filter; \
+    rule: "generated entry trees with ignore set directly, inherited from a group, overridden to false inside an ignored group and nested twice x filter sets (as C13) x {no flag, --ignored, --include-ignored}; actions --list, --list --format terse (NEXTEST=1) and Divan::list_benches(), in-process and through real command lines in a child process; round trip: up to 3 listed paths are fed back as the only --exact filter; argument labels with commas, parentheses and spaces; on the command-line route the first and last listed line are fed back as `--exact <path>` in a further child process; \
            non-trivial = at least one ignored and one non-ignored case are selected and the flag is not 'none', or an ignore override sits inside an ignored group; distinct by serialized case.",
     assumptions: &[
         "a benchmark 'ran' iff its body (which logs) was invoked; generator / counter / Bencher closures live inside the bodies",
@@ -197,7 +197,31 @@ pub fn check_cli(c: &Case) -> Verdict {
         return Verdict::fail(sig, format!("(command line {args:?}) terse listing {:?} but a test run executes {:?}", got_lines.keys().collect::<Vec<_>>(), expect_lines.keys().collect::<Vec<_>>()));
     }
     let _ = rf;
-    Verdict::pass(c.ignored != 0 && !executed.is_empty())
+    // Round trip through the real command line: a listed path given back
+    // with --exact selects exactly that case (first and last listed line
+    // whose path is unique).
+    let all_paths = multiset(cases.iter().map(|k| k.path_str()));
+    let lines: Vec<&String> = got_lines.keys().collect();
+    let mut tried = 0;
+    for line in lines.first().into_iter().chain(lines.last().filter(|_| lines.len() > 1)) {
+        let Some(path) = line.strip_suffix(": benchmark") else { continue };
+        if all_paths.get(path) != Some(&1) || path.starts_with('-') {
+            continue;
+        }
+        let args = vec!["--test".to_string(), "--include-ignored".into(), "--exact".into(), path.to_string()];
+        let (one, code, stderr) = match twin::run_child(&c.spec, &args, &[], &tag) {
+            Ok(r) => r,
+            Err(e) => return Verdict::Inconclusive(e),
+        };
+        vensure!(code == 0, "cli-exit", "exit code {code} for {args:?}: {stderr}");
+        let ran: Vec<String> = one.invocations.iter().map(key_of_invocation).filter_map(|k| by_key.get(&k).map(|c| c.path_str())).collect();
+        let mut distinct = ran.clone();
+        distinct.sort();
+        distinct.dedup();
+        vensure!(distinct == vec![path.to_string()], "cli:round-trip", "the listed path {path:?} given back as `--exact {path}` runs {distinct:?}");
+        tried += 1;
+    }
+    Verdict::pass((c.ignored != 0 && !executed.is_empty()) || tried > 0)
 }
 
 pub fn case() -> impl Strategy<Value = Case> {
@@ -209,6 +233,6 @@ pub fn case() -> impl Strategy<Value = Case> {
 }
 
 fn groups(g: &mut Groups) {
-    g.prop("twin", 16_000, 200_000, || case(), check_case);
-    g.prop("cli", 1_200, 8_000, || case(), check_cli);
+    g.prop("twin", 16_000, 1_600_000, || case(), check_case);
+    g.prop("cli", 1_200, 64_000, || case(), check_cli);
 }
